@@ -98,6 +98,12 @@ func checkC12(c *Ctx) {
 	c12NoDroppedErrors(c, c.fn(ep, "(*Encoder).EncodeFile"), "errors.propagate")
 	c12NoDroppedErrors(c, c.fn(ep, "Encoder.Close"), "errors.propagate")
 	c12NoDroppedErrors(c, c.fn("cmd/cue/cmd", "runExport"), "errors.propagate")
+	// the import side: decode, place and write
+	for _, fn := range []string{"runImport", "genericMode", "handleFile", "writeFile", "(*buildPlan).placeOrphans", "placeOrphans", "(*buildPlan).placeValue"} {
+		if f := c.fnOpt("cmd/cue/cmd", fn); f != nil {
+			c12NoDroppedErrors(c, f, "errors.propagate")
+		}
+	}
 
 	// (b) registries
 	ne := c.fn(ep, "NewEncoder")
@@ -280,6 +286,7 @@ func c12NoDroppedErrors(c *Ctx, f *Fn, rule string) {
 	bestEffort := map[string]string{
 		"fmt.Fprintln": "diagnostic output", "fmt.Fprintf": "diagnostic/header output", "fmt.Fprint": "diagnostic output",
 		"os.(*File).Close": "", "cmd/cue/cmd.(*iterator).close": "",
+		"os.MkdirAll": "a failure to create the directory surfaces through the write that follows",
 	}
 	var bad []string
 	check := func(call *ast.CallExpr, how string) {
